@@ -249,6 +249,18 @@ func (r *rwRT) ruleBranchCtx() {
 			}
 			name = strings.Join(xs, ">")
 		}
+		if os.Getenv("VERIF_DEBUG_BRANCH") != "" && ok {
+			for id, o := range st.heap {
+				for k, v := range o.Fields {
+					if k == "frames" {
+						fmt.Fprintf(os.Stderr, "BRANCH %s obj%d frames=%s\n", name, id, v)
+						if r, isRef := v.(Ref); isRef {
+							fmt.Fprintf(os.Stderr, "BRANCH    -> %v\n", st.heap[r.ID].Elems)
+						}
+					}
+				}
+			}
+		}
 		if !ok {
 			c.und("RW.BRANCHCTX", name, pos, "the pre-order callback does not descend into this context on a single path")
 			continue
